@@ -76,6 +76,8 @@ Modified(g) ==
    IN IF Bonds(g) = {} THEN g1
       ELSE [g1 EXCEPT !.bd[LeastBond(Bonds(g))].at = Put(@, "w", 8)]
 
+AtomCollision(g, m) == \E x, y \in Atoms(g) : x # y /\ Ren(m, x) = Ren(m, y)
+
 (* ------------------------------------------------------------------------ *)
 Outcomes(g, h, op) ==
   LET a == op.a  b == op.b  k == op.k  v == op.v  n == op.name IN
@@ -163,8 +165,9 @@ Outcomes(g, h, op) ==
            THEN IF {a, b} \in DOMAIN g.bch THEN { OK([g EXCEPT !.bch = Drop(@, {{a, b}})]) } ELSE { RAISE(g), OK(g) }
            ELSE IF {a, b} \in DOMAIN g.bch /\ op.ch \in DOMAIN g.bch[{a, b}]
                   THEN { OK([g EXCEPT !.bch = DropEntry(@, {a, b}, op.ch)]) } ELSE { RAISE(g), OK(g) }
-    [] n = "relabel_inplace" ->
-         IF RelabelOK(g, op.m) THEN { OK(Relabel(g, op.m)) } ELSE {}
+    [] n = "relabel_inplace" ->      \* a mapping that sends two atoms of the graph to one label cannot be honoured
+         IF AtomCollision(g, op.m) THEN { RAISE(g) }
+         ELSE IF RelabelOK(g, op.m) THEN { OK(Relabel(g, op.m)) } ELSE {}
     (* ------------------------------ queries ------------------------------ *)
     [] n = "has_atom" -> { ANS(g, ABool(a \in Atoms(g))) }
     [] n = "has_bond" -> { ANS(g, ABool(HasBond(g, a, b))) }
@@ -213,7 +216,8 @@ Outcomes(g, h, op) ==
     [] n = "copy_ctor" -> { RES(g, Convert(g, op.tk)) }
     [] n = "copy_mod" -> { RES(g, Modified(g)) }   \* copy, then edit the copy (harness composite)
     [] n = "relabel_copy" ->
-         IF RelabelOK(g, op.m) THEN { RES(g, Relabel(g, op.m)) } ELSE {}
+         IF AtomCollision(g, op.m) THEN { RAISE(g) }
+         ELSE IF RelabelOK(g, op.m) THEN { RES(g, Relabel(g, op.m)) } ELSE {}
     [] n = "subgraph" ->
          IF op.S \subseteq Atoms(g) THEN { RES(g, Subgraph(g, op.S)) }
          ELSE { RAISE(g), RES(g, Subgraph(g, op.S \cap Atoms(g))) }
